@@ -5,7 +5,7 @@ Import ListNotations.
 From SU Require Import F32.
 From SU.Model Require Import Midi.
 From SU.Spec Require Import MidiSpec.
-From SU.Proofs Require Import MidiParserProofs.
+From SU.Proofs Require Import MidiParserProofs MidiLiftProofs.
 Open Scope Z_scope.
 
 (** the messages the byte-at-a-time parser completes are exactly those of the
@@ -43,6 +43,17 @@ Theorem C06_no_panic : forall ch l b,
   rx_step_ok (run_bytes ch l) (RByte b) = true.
 Proof. exact bytes_no_panic. Qed.
 
+(** histories that mix bytes with edge polls and mode changes: the byte-at-a-time receiver
+    behaves like the message-level receiver on the lifted history (each byte replaced by the
+    message it completes, if any); all outputs, the held-note list and every poll result
+    agree.  This is what carries the message-level theorems of C04 and C05 over to real byte
+    streams with polls anywhere, also between the bytes of a message. *)
+Theorem C06_ops_lift : forall ch ops,
+  observe (rx_run (rx_new ch) ops) = observe (mrun ch (lift Idle ops)) /\
+  r_held (rx_run (rx_new ch) ops) = r_held (mrun ch (lift Idle ops)) /\
+  rx_polls (rx_new ch) ops = m_polls (rx_new ch) (lift Idle ops).
+Proof. exact ops_lift. Qed.
+
 Example C06_example :
   decode [144; 60; 248; 100; 64; 90; 241; 5; 128; 60; 0; 60]
   = [MNoteOn 0 60 100; MNoteOn 0 64 90; MNoteOff 0 60 0].
@@ -53,3 +64,4 @@ Print Assumptions C06_framing.
 Print Assumptions C06_realtime_transparent.
 Print Assumptions C06_foreign_channel_transparent.
 Print Assumptions C06_no_panic.
+Print Assumptions C06_ops_lift.
